@@ -2,17 +2,23 @@
 //!
 //! Sub-checks (all exhaustive over the stated products, E1 of DESIGN §3.1; f32 and f64):
 //!  ciede2000/<T>      all ordered pairs of the Lab lattice and of the Lch lattice through
-//!                     Ciede2000::difference (vs Sharma/Wu/Dalal with the backward-error envelope),
-//!                     ImprovedCiede2000 and the deprecated ColorDifference (vs their definition
-//!                     through `difference`)
+//!                     Ciede2000::difference (vs Sharma/Wu/Dalal, validated in the same run on the
+//!                     34 published pairs; backward-error envelope; pairs next to |Δh'| = 180°
+//!                     excluded and counted), ImprovedCiede2000 and the deprecated ColorDifference
+//!                     (vs their definition through `difference`); ≥ 0, symmetric, d(x,x) = 0 exactly
 //!  closed-form/<T>    DeltaE, ImprovedDeltaE, EuclideanDistance, HyAb on Lab, Lch, Luv, Oklab,
-//!                     Cam16UcsJab, Cam16UcsJmh, Srgb, LinSrgb, Xyz, Yxy, SrgbLuma
+//!                     Cam16UcsJab, Cam16UcsJmh, Srgb, LinSrgb, Xyz, Yxy, SrgbLuma; same laws
 //!  polar-vs-rect/<T>  Lch vs Lab and Cam16UcsJmh vs Cam16UcsJab on colours that correspond
 //!                     under palette's own conversion (both directions)
 //!  wcag-luminance/<T> relative luminance of all 2^24 Srgb<u8> colours (value, range, monotone chains)
 //!  wcag-grey/<T>      all 256 × 256 grey-level pairs × 4 types × both traits
 //!  wcag-grid/<T>      all ordered pairs of the 9³ / 17³ sRGB grid × Srgb, LinSrgb × both traits
-//!  wcag-deprecated/<T> the deprecated RelativeContrast on 14 further colour types (9³ grid)
+//!  wcag-deprecated/<T> the deprecated RelativeContrast on 14 further colour types (6³ / 9³ grid)
+//!
+//! Files: oracle.rs (f64 references + their self-validation), lattice.rs (the enumerated spaces),
+//! subject.rs (the only code that calls palette), checks.rs (one check function per kind of case,
+//! shared by the explorer and --replay), main.rs (explorer, evidence, replay).
+//! Replay case = {sub, space|type, measure|trait, float, input: bit patterns}.
 mod checks;
 mod lattice;
 mod oracle;
@@ -67,7 +73,6 @@ fn chroma64<T: Sc>(space: Space, x: [T; 3]) -> f64 {
 }
 
 fn run_pairs<T: Sc>(ctx: &Ctx, total: &mut Collector) {
-    let ciede = [Meas::Ciede2000, Meas::ImprovedCiede2000, Meas::ColorDifference];
     for group in ["ciede2000", "closed-form"] {
         let sub = format!("{}/{}", group, T::NAME);
         if !ctx.wants(&sub) {
@@ -134,7 +139,6 @@ fn run_pairs<T: Sc>(ctx: &Ctx, total: &mut Collector) {
             "the Lab and Lch lattices of ciede2000, polar/cartesian lattices of the same shape for Luv, Oklab, Cam16UcsJab, Cam16UcsJmh, {0,1e-6,¼,½,¾,1}³ for Srgb, LinSrgb, Xyz, Yxy and all 256 levels for SrgbLuma; all ordered pairs"
         };
         total.exhaustive(&sub, true, &format!("{what}. {}", bound.join("; ")));
-        let _ = ciede;
     }
 }
 
